@@ -12,7 +12,10 @@ import (
 	"fmt"
 	"io"
 	"os"
+	"runtime"
 	"strings"
+	"sync/atomic"
+	"time"
 )
 
 // Parser is the glue a generated package exposes through its epilogue.
@@ -81,6 +84,9 @@ type ParseResult struct {
 }
 
 type JobResult struct {
+	// Diverged >= 0: the parse with this index (within Parses) looped without requesting tokens or running actions until
+	// the watchdog (heap > 400 MB or 4 s in one parse) stopped the driver; later parses of the job were not run
+	Diverged  int             `json:"diverged"`
 	Parser    string          `json:"p"`
 	Kind      string          `json:"k"`
 	Tag       string          `json:"tag,omitempty"`
@@ -149,7 +155,9 @@ func defaultBudget(f *Feed) int { return 10000 + 200*len(f.Toks) }
 
 // runParse performs one Parse on context c (nil for the global form) under e.
 func runParse(p *Parser, c interface{}, e *env) (res ParseResult) {
+	beginParse()
 	defer func() {
+		endParse()
 		res.Recs = e.recs
 		res.Fetched = e.fetched
 		if x := recover(); x != nil {
@@ -217,8 +225,50 @@ func fresh(p *Parser) interface{} {
 	return nil
 }
 
+// watchdog state
+var (
+	parseStart  int64 // unix nano of the running parse, 0 = none
+	curResult   *JobResult
+	doneResults []*JobResult
+	outPath     string
+)
+
+func beginParse() { atomic.StoreInt64(&parseStart, time.Now().UnixNano()) }
+func endParse()   { atomic.StoreInt64(&parseStart, 0) }
+
+func watchdog() {
+	var ms runtime.MemStats
+	for {
+		time.Sleep(50 * time.Millisecond)
+		st := atomic.LoadInt64(&parseStart)
+		if st == 0 {
+			continue
+		}
+		runtime.ReadMemStats(&ms)
+		if ms.HeapAlloc > 400<<20 || time.Now().UnixNano()-st > int64(4*time.Second) {
+			r := curResult
+			if r != nil {
+				r.Diverged = len(r.Parses)
+				r.Parses = append(r.Parses, ParseResult{Outcome: "diverge", Msg: fmt.Sprintf("no token requested and no action run; heap %d MB", ms.HeapAlloc>>20)})
+				doneResults = append(doneResults, r)
+			}
+			ob, err := json.Marshal(doneResults)
+			if err != nil {
+				fmt.Fprintln(os.Stderr, "watchdog: cannot marshal partial results:", err)
+				os.Exit(4)
+			}
+			if err := os.WriteFile(outPath, ob, 0o644); err != nil {
+				fmt.Fprintln(os.Stderr, "watchdog: cannot write partial results:", err)
+				os.Exit(4)
+			}
+			os.Exit(3)
+		}
+	}
+}
+
 func runJob(j *Job) *JobResult {
-	r := &JobResult{Parser: j.Parser, Kind: j.Kind, Tag: j.Tag}
+	r := &JobResult{Parser: j.Parser, Kind: j.Kind, Tag: j.Tag, Diverged: -1}
+	curResult = r
 	p := registry[j.Parser]
 	if p == nil {
 		r.Err = "unknown parser"
@@ -417,11 +467,14 @@ func Main() {
 		fmt.Fprintln(os.Stderr, err)
 		os.Exit(2)
 	}
-	out := make([]*JobResult, 0, len(jobs))
+	outPath = os.Args[2]
+	go watchdog()
 	for i := range jobs {
-		out = append(out, runJob(&jobs[i]))
+		r := runJob(&jobs[i])
+		doneResults = append(doneResults, r)
 	}
-	ob, err := json.Marshal(out)
+	curResult = nil
+	ob, err := json.Marshal(doneResults)
 	if err != nil {
 		fmt.Fprintln(os.Stderr, err)
 		os.Exit(2)
